@@ -326,6 +326,18 @@ impl<VM: VMBinding> crate::plan::generational::global::GenerationalPlanExt<VM> f
                 .trace_object::<Q>(queue, object);
         }
 
+        // Objects allocated into the non-moving space since the last full-heap GC are unmarked.
+        // Trace them so that reachable ones are marked, scanned and seen as live in this GC.
+        if self.immix.common().get_nonmoving().in_space(object) {
+            return crate::policy::gc_work::PolicyTraceObject::trace_object::<Q, KIND>(
+                self.immix.common().get_nonmoving(),
+                queue,
+                object,
+                None,
+                worker,
+            );
+        }
+
         object
     }
 }
